@@ -30,6 +30,9 @@ def run(ctx):
     # growth: poll / scan requests of the real BusHandler on the real handler (spec/BusHandler.tla)
     from checks import c04_bushandler
     c04_bushandler.run_growth(ctx)
+    # growth: the Queue between client threads and the bus thread, linearizability of recorded histories (spec/QueueLin.tla)
+    from checks import grow_queue
+    grow_queue.run_growth(ctx)
 
 
 LIVE = ["req=0:3115b5090100", "req=1:31feb50900", "submit=1", "qq=", "nn=0", "snn=0", "echofaults=0", "readerr=1",
